@@ -237,6 +237,11 @@ func checkC14(r *Run) propMeta {
 	checkInPlaceReuse(r, "C14-R4-stored-set-readonly", p)
 	checkDerivedGraphKeepsNodes(r, p)
 	checkPrefixArraysWrittenEveryIteration(r, p, "C14-R6-prefix-array")
+	checkLoopIndexOffset(r, p)
+	checkDecoderWrapsSource(r, p)
+	checkCountAccessors(r, p)
+	r.Floor("C14-R8-decoder-wraps-source", 2)
+	r.Floor("C14-R9-count-accessors", 3)
 	r.Floor("C14-R4-stored-set-readonly", 8)
 	r.Floor("C14-R1-direction-exhaustive", 6)
 	r.Floor("C14-R2-role-consistency", 10)
